@@ -170,7 +170,7 @@ class C18(Check):
         "generate_* is excluded: it draws from the process-wide random module by design",
     ]
     required_labels = ["ops:2", "ops:3", "kind:sread", "kind:swrite", "kind:validate", "kind:parse", "kind:jwrite", "kind:cread", "logical", "shared-schema", "multi-preemption", "preempted-inside", "cold-start", "kind:fingerprint", "kind:sread_rs", "double-preemption"]
-    quick = (10, 4)
+    quick = (6, 8)
     thorough = (120, 16)
 
     def __init__(self):
